@@ -12,25 +12,35 @@ from harness.common import drv, guarded, impl, run_check
 
 PID = "C20"
 THEOREMS = ["binnify_eq_spec", "tilingSpec_get", "tilingSpec_last_stop", "getBinsize_truthful",
-            "getBinsize_complete", "getChromsizes_mem", "getChromsizes_nodup", "binnify_roundtrip"]
+            "getBinsize_complete", "getChromsizes_mem", "getChromsizes_nodup", "binnify_roundtrip", "binnify_regrid"]
 LEVELS = {"binnify": "top", "binsize_truthful": "top", "chromsizes": "top", "binsize_unit": "unit",
-          "makebins_cli": "top", "cooler_binsize": "top"}
+          "makebins_cli": "top", "cooler_binsize": "top", "regrid": "top"}
 DESCRIBE = {
-    "binnify": "cooler.util.binnify(sizes, b) vs Lean `binnify` (= `binnifySpecFrom`, theorem binnify_eq_spec)",
+    "binnify": "cooler.util.binnify(sizes, b) vs Lean `binnify` (= `binnifySpecFrom`, theorem binnify_eq_spec), the size table given as a "
+               "Series of every integer dtype that holds it and of Python ints, the width as int / numpy integer",
+    "regrid": "binnify(sizes, b0) -> create_cooler -> Cooler.bins()/binsize/chromsizes -> binnify(Cooler.chromsizes, b) (the int32 Series "
+              "the file yields) vs Lean `binnify` / `getBinsize` / `getChromsizes` (theorem binnify_regrid)",
     "binsize_truthful": "if cooler.util.get_binsize(bins) = b then Lean `UniformChrom b` must hold for every chromosome",
     "binsize_unit": "cooler.util.get_binsize(bins) vs Lean `getBinsize bins`",
     "chromsizes": "cooler.util.get_chromsizes(bins) vs Lean `getChromsizes` (ends of last bins)",
     "makebins_cli": "`cooler makebins` output vs Lean `binnify`",
     "cooler_binsize": "Cooler.binsize / info['bin-type'] / info['bin-size'] of a created cooler vs Lean `getBinsize`, truthful",
 }
-RULE = ("binnify: every size table with <=2 (quick) / <=3 (thorough) chromosomes of length 1..12 x width 1..13; "
+RULE = ("binnify: every size table with <=2 (quick) / <=3 (thorough) chromosomes of length 1..12 x width 1..13, each in every "
+        "numeric form (Series of int8..int64, uint8..uint64 where the values fit, Python-int objects; width int / np.int64 / np.int32); "
+        "seeded tables whose longest chromosome is at, within one bin below, or just beyond every integer-width limit "
+        "(2^7-1 .. 2^32-1, 2^40) with widths giving 1..~300 bins or exceeding the limit; the same through makebins and through a "
+        "stored cooler (regrid, lengths <= 2^31-1); "
         "inference: every valid segmentation of <=2 chromosomes of length <=6 (quick) / <=8 (thorough) plus seeded random "
-        "3-4 chromosome tables (uniform, variable, longer last bin, one-bin chromosomes); non-trivial = table with >=2 bins "
+        "3-4 chromosome tables (uniform, variable, longer last bin, one-bin chromosomes) plus the same styles scaled so that the "
+        "longest chromosome ends at / just below / just beyond an integer-width limit, start/end columns in every integer dtype "
+        "that holds them; non-trivial = table with >=2 bins "
         "on some chromosome (inference) or a length that is not a multiple of the width (binnify); distinct by canonical JSON")
 EXHAUSTIVE = {"quick": True, "thorough": True}
 TRUSTED = ["pandas groupby/drop_duplicates/concat and numpy arange/ceil are primitives of the model",
            "float64 division `clen / binsize` idealised as integer arithmetic (exact below 2^52; sampled up to 2^40)"]
-ASSUMPTIONS = ["chromosome lengths and widths >= 1"]
+ASSUMPTIONS = ["chromosome lengths and widths >= 1", "lengths and widths sampled up to ~2^42 (coordinates are int64 at most); a stored "
+               "cooler holds lengths <= 2^31-1 (int32 columns)"]
 
 
 def worker_init():
@@ -39,22 +49,121 @@ def worker_init():
     from cooler import util  # noqa
 
 
+_INT_DTYPES = ("int64", "int32", "uint32", "uint64", "int16", "uint16", "int8", "uint8")
+
+
+def _size_forms(sizes):
+    """the same chromosome-size table in every valid numeric FORM: a Series of each integer dtype that holds the lengths
+    (int32 named like the one `Cooler.chromsizes` returns) and a Series of Python ints (object dtype)"""
+    names = [gen.chromname(c) for c in range(len(sizes))]
+    hi = max(sizes)
+    for dt in _INT_DTYPES:
+        if hi <= np.iinfo(dt).max:
+            cs = pd.Series(np.array(sizes, dtype=dt), index=names)
+            if dt == "int32":
+                cs = cs.rename("length").rename_axis("name")
+            yield dt, cs
+    yield "object (Python ints)", pd.Series([int(x) for x in sizes], index=names, dtype=object)
+
+
+def _width_forms(b, all_forms=True):
+    """the width as a Python int and as the numpy integers an attribute (`Cooler.binsize` is np.int64) or an array element gives"""
+    yield "int", int(b)
+    if all_forms:
+        yield "np.int64", np.int64(b)
+        if b <= np.iinfo("int32").max:
+            yield "np.int32", np.int32(b)
+
+
+def _binnify_forms(sizes, b, model, forms, pick=None):
+    """binnify on each (size form, width form): every one must give the model's table with the given chromosome order.
+    `pick`: an integer -> only the plain form (int64 Series, int width) and two others chosen by it (the exhaustive sweep of small
+    tables rotates through the forms; everything else runs them all)"""
+    names = [gen.chromname(c) for c in range(len(sizes))]
+    combos = [(sl, cs, wl, w) for sl, cs in forms
+              for wl, w in _width_forms(b, all_forms=sl in ("int64", "int32", "Cooler.chromsizes"))]
+    if pick is not None and len(combos) > 3:
+        n = len(combos) - 1
+        combos = [combos[0], combos[1 + pick % n], combos[1 + (pick // n + pick) % n]]
+    for sl, cs, wl, w in combos:
+        df = impl(util.binnify, cs, w)
+        got = gen.df_bins(df, names)
+        cats = [str(x) for x in df["chrom"].cat.categories]
+        if got != model or cats != names:
+            k = next((i for i, (g, e) in enumerate(zip(got, model)) if g != e), min(len(got), len(model)))
+            return {"mismatch": True, "chromsizes_form": sl, "width_form": wl, "nbins_impl": len(got), "nbins_model": len(model),
+                    "first_difference_at": k, "impl": got[max(0, k - 1):k + 3], "model": model[max(0, k - 1):k + 3],
+                    "categories": cats}
+    return None
+
+
 def _binnify(case):
     sizes, b = case["sizes"], case["b"]
-    cs = pd.Series(sizes, index=[gen.chromname(c) for c in range(len(sizes))], dtype=np.int64)
-    df = impl(util.binnify, cs, b)
-    got = gen.df_bins(df, list(cs.index))
-    cats = [str(x) for x in df["chrom"].cat.categories]
     m = drv().ask("C20.binnify", sizes=sizes, b=b)
     assert m["model"] == m["spec"], "L1 != L0: theorem binnify_eq_spec contradicted"
-    if got != m["model"] or cats != list(cs.index):
-        return {"mismatch": True, "impl": got, "model": m["model"], "categories": cats}
-    return None
+    return _binnify_forms(sizes, b, m["model"], _size_forms(sizes), pick=case.get("rotate"))
+
+
+def _regrid(case):
+    """bin a genome with b0, store it, read it back, re-bin the sizes the file yields with b"""
+    sizes, b0, b = case["sizes"], case["b0"], case["b"]
+    names = [gen.chromname(c) for c in range(len(sizes))]
+    m = drv().ask("C20.regrid", sizes=sizes, b0=b0, b=b)
+    assert m["bins0"] == m["spec0"] and m["direct"] == m["spec"], "L1 != L0: theorem binnify_eq_spec contradicted"
+    assert m["sizes_back"] == sizes and m["regrid"] == m["direct"], "theorem binnify_roundtrip / binnify_regrid contradicted"
+    assert m["uniform0"], "binnify's table is not uniform for its own width"
+    info = drv().ask("C20.bininfo", bins=m["bins0"])
+    df0 = impl(util.binnify, pd.Series(sizes, index=names, dtype=np.int64), b0)
+    got0 = gen.df_bins(df0, names)
+    if got0 != m["bins0"]:
+        return {"mismatch": True, "step": "binnify(sizes, b0)", "nbins_impl": len(got0), "nbins_model": len(m["bins0"])}
+    # row labels are presentation (gen.relabel_rows): the frame handed to create_cooler need not carry a RangeIndex
+    df0 = gen.relabel_rows(df0, sum(sizes) + b0, groups=[x[0] for x in got0])
+    p = os.path.join(gen.tmpdir(), f"rg-{os.getpid()}.cool")
+    px = pd.DataFrame({"bin1_id": np.array([0], dtype=np.int64), "bin2_id": np.array([0], dtype=np.int64),
+                       "count": np.array([1], dtype=np.int32)})
+    try:
+        impl(cooler.create_cooler, p, df0, px)
+        c = impl(cooler.Cooler, p)
+        stored = impl(lambda: c.bins()[:])[["chrom", "start", "end"]]
+        cs = impl(lambda: c.chromsizes)
+        bsz = impl(lambda: c.binsize)
+    finally:
+        if os.path.exists(p):
+            os.unlink(p)
+    bsz = None if bsz is None else int(bsz)
+    got = gen.df_bins(stored, names)
+    if got != m["bins0"]:
+        k = next((i for i, (g, e) in enumerate(zip(got, m["bins0"])) if g != e), min(len(got), len(m["bins0"])))
+        return {"mismatch": True, "step": "Cooler.bins()[:] of the stored binnify table", "first_difference_at": k,
+                "impl": got[max(0, k - 1):k + 3], "model": m["bins0"][max(0, k - 1):k + 3]}
+    if [str(k) for k in cs.index] != names or [int(v) for v in cs.values] != sizes:
+        return {"mismatch": True, "step": "Cooler.chromsizes", "impl": [[str(k), int(v)] for k, v in cs.items()], "model": sizes}
+    if bsz is not None and not drv().ask("C20.uniform", bins=m["bins0"], b=bsz)["uniform"]:
+        return {"mismatch": True, "step": "Cooler.binsize", "impl": bsz, "model": m["binsize0"],
+                "note": "reported fixed size but some stored bin is not [k*b, min((k+1)*b, length))"}
+    if bsz != m["binsize0"]:
+        return {"mismatch": True, "step": "Cooler.binsize", "impl": bsz, "model": m["binsize0"]}
+    # the stored table as the file yields it (int32 start/end) through the inference
+    b2 = impl(util.get_binsize, stored)
+    b2 = None if b2 is None else int(b2)
+    if b2 != info["binsize"]:
+        return {"mismatch": True, "step": "get_binsize(Cooler.bins()[:])", "impl": b2, "model": info["binsize"]}
+    cs2 = impl(util.get_chromsizes, stored)
+    got2 = [[names.index(str(k)) if str(k) in names else str(k), (int(v) if v == v else None)] for k, v in cs2.items()]
+    if got2 != info["chromsizes"]:
+        return {"mismatch": True, "step": "get_chromsizes(Cooler.bins()[:])", "impl": got2, "model": info["chromsizes"]}
+    # the idiom `binnify(clr.chromsizes, b)`
+    r = _binnify_forms(sizes, b, m["direct"], [("Cooler.chromsizes", cs)])
+    if r:
+        r["step"] = "binnify(Cooler.chromsizes, b)"
+        r["chromsizes_dtype"] = str(cs.dtype)
+    return r
 
 
 def _forms(bins):
     """the same bin table in equally valid FORMS: chrom as categorical / object strings / categorical with categories that have
-    no rows (a table filtered to fewer chromosomes keeps them); start/end as int64 / int32 / unsigned integers"""
+    no rows (a table filtered to fewer chromosomes keeps them); start/end as int64 / every other integer dtype that holds them"""
     df = gen.bins_df(bins)
     yield "categorical,int64", df
     yield "object,int64", gen.bins_df(bins, categorical=False)
@@ -63,7 +172,11 @@ def _forms(bins):
     d2["chrom"] = pd.Categorical([str(x) for x in df["chrom"]], categories=["unused_first"] + cats + ["unused_last"], ordered=True)
     yield "categorical with unobserved categories,int64", d2
     hi = max(b[2] for b in bins)
-    for dt in ("int32", "uint32", "uint64") + (("uint16",) if hi < 2 ** 16 else ()) + (("uint8",) if hi < 2 ** 8 else ()):
+    for dt in ("int32", "uint32", "uint64", "uint16", "uint8", "int16", "int8"):
+        lim = np.iinfo(dt).max
+        # every dtype that holds the coordinates; the narrow signed ones where the table comes near their limit
+        if hi > lim or (dt in ("int16", "int8") and 2 * hi <= lim):
+            continue
         d3 = df.copy()
         d3["start"] = d3["start"].astype(dt)
         d3["end"] = d3["end"].astype(dt)
@@ -191,7 +304,7 @@ def _cooler_binsize(case):
 
 
 CHECKS = {"binnify": _binnify, "binsize_truthful": _binsize_truthful, "binsize_unit": _binsize_unit,
-          "chromsizes": _chromsizes, "makebins_cli": _makebins_cli, "cooler_binsize": _cooler_binsize}
+          "chromsizes": _chromsizes, "makebins_cli": _makebins_cli, "cooler_binsize": _cooler_binsize, "regrid": _regrid}
 
 
 def nontrivial(name, case):
@@ -201,12 +314,22 @@ def nontrivial(name, case):
     return any(L % case["b"] for L in case["sizes"])
 
 
+def _magnitude(x):
+    for m in LIMITS:
+        if x <= m:
+            return f"<=2^{(m + 1).bit_length() - 1}" + ("-1" if m != 2 ** 40 else "")
+    return ">2^40"
+
+
 def distribution(name, case):
     if "bins" in case:
         n = max(b[0] for b in case["bins"]) + 1
         yield f"tables.nchroms={n}"
+        yield f"tables.longest{_magnitude(max(b[2] for b in case['bins']))}"
     else:
         yield f"sizes.nchroms={len(case['sizes'])}"
+        yield f"sizes.longest{_magnitude(max(case['sizes']))}"
+        yield f"width{_magnitude(case['b'])}"
 
 
 def all_segmentations(maxlen, nchroms):
@@ -216,6 +339,60 @@ def all_segmentations(maxlen, nchroms):
         for c, ws in enumerate(combo):
             bins += gen.chrom_bins(c, ws)
         yield bins
+
+
+# the largest value of every integer width a length / coordinate can be given in (int8 .. uint32), and 2^40 (int64 territory)
+LIMITS = [2 ** 7 - 1, 2 ** 8 - 1, 2 ** 15 - 1, 2 ** 16 - 1, 2 ** 31 - 1, 2 ** 32 - 1, 2 ** 40]
+
+
+def _round_near(rng, x):
+    """a round number (1/2/5 x 10^k or 2^k) of the magnitude of x"""
+    x = max(1, x)
+    return max(1, rng.choice([10 ** (len(str(x)) - 1) * rng.choice([1, 2, 5]), 2 ** (x.bit_length() - 1)]))
+
+
+def near_limit_sizes(rng, cap=None, limits=None):
+    """(sizes, b): a size table whose longest chromosome is at / within one bin below / just beyond an integer-width limit M, with
+    a width that gives few bins (1 .. ~300 on that chromosome, or none complete: width at or beyond M); other chromosomes small
+    or near the limit too.  `cap`: largest admissible length."""
+    M = rng.choice([m for m in (limits or LIMITS) if cap is None or m <= cap])
+    nb = rng.choice([1, 1, 2, 3, 5, 17, 300])
+    base = max(1, M // nb)
+    b = rng.choice([base, base + 1, max(1, base - 1), _round_near(rng, base), _round_near(rng, base), M, M + 1, 2 * M + 3])
+
+    def one():
+        L = rng.choice([M, M - 1, M - rng.randrange(b), M - rng.randrange(b), M + 1, M + rng.randint(1, b),
+                        (M // b) * b, (M // b) * b + 1, (M // b) * b - 1])
+        return L
+    sizes = [one()]
+    for _ in range(rng.choice([0, 1, 1, 2])):
+        sizes.append(rng.choice([1, b, b + 1, max(1, b - 1), rng.randint(1, 3 * b), one()]))
+    rng.shuffle(sizes)
+    hi = cap if cap is not None else 2 ** 42
+    return [min(max(1, L), hi) for L in sizes], b
+
+
+def near_limit_table(rng, cap=None):
+    """a valid segmentation of every style (uniform, variable, longer last bin, one-bin chromosomes) scaled so that its longest
+    chromosome ends exactly at a target at / just below / just beyond an integer-width limit; the other chromosomes keep the
+    scaled grid with a last bin possibly shortened"""
+    M = rng.choice([m for m in LIMITS if cap is None or m <= cap])
+    bins = gen.random_segmentation(rng, rng.randint(1, 3), 8)
+    E = max(x[2] for x in bins)
+    T = rng.choice([M, M, M - 1, M - rng.randint(0, M // (2 * E)), M + 1, M + rng.randint(1, M // E)])
+    if cap is not None:
+        T = min(T, cap)
+    s = -(-T // E)
+    r = s * E - T              # < E <= 8 <= s
+    out = [[c, a * s, e * s] for c, a, e in bins]
+    for i, x in enumerate(out):
+        if i + 1 == len(out) or out[i + 1][0] != x[0]:      # last bin of its chromosome
+            x[2] -= r if bins[i][2] == E else rng.choice([0, 0, rng.randrange(s)])
+    return out
+
+
+def _few_bins(sizes, b, most=5000):
+    return sum(L // b for L in sizes) < most
 
 
 def cases(tier, rng):
@@ -231,11 +408,13 @@ def cases(tier, rng):
         for nm in ("binsize_truthful", "binsize_unit", "chromsizes", "cooler_binsize"):
             yield nm, {"bins": bins}
     maxc = 3 if thorough else 2
+    count = 0
     for n in range(1, maxc + 1):
         lens = range(1, 13) if (n < 3) else (1, 2, 3, 5, 7, 8, 10, 12)
         for sizes in itertools.product(lens, repeat=n):
             for b in range(1, 14):
-                yield "binnify", {"sizes": list(sizes), "b": b}
+                count += 1
+                yield "binnify", {"sizes": list(sizes), "b": b, "rotate": count}
     for _ in range(400 if thorough else 60):
         n = rng.randint(1, 4)
         b = rng.choice([1, 2, 3, 7, 10, 1000, 2 ** 20, 10 ** 6 + 1])
@@ -243,6 +422,21 @@ def cases(tier, rng):
         # keep tables small enough to materialise
         sizes = [s if s // b < 5000 else b * rng.randint(1, 5000) + rng.randint(0, b - 1) for s in sizes]
         yield "binnify", {"sizes": sizes, "b": b}
+    # magnitudes: at / around every integer-width limit
+    for _ in range(1500 if thorough else 150):
+        sizes, b = near_limit_sizes(rng)
+        yield "binnify", {"sizes": sizes, "b": b}
+    for k in range(200 if thorough else 30):
+        if k % 3 == 2:
+            sizes = [rng.randint(1, 40) for _ in range(rng.randint(1, 3))]
+            b0, b = rng.randint(1, 15), rng.randint(1, 15)
+        else:
+            # the file yields int32 lengths: mostly around that limit
+            sizes, b = near_limit_sizes(rng, cap=2 ** 31 - 1, limits=[2 ** 31 - 1] * 4 + LIMITS)
+            b0 = rng.choice([b, 2 * b, max(1, b // 2), b + 1, _round_near(rng, max(sizes)), max(sizes), max(sizes) + 1])
+            if not (_few_bins(sizes, b, 3000) and _few_bins(sizes, b0, 3000)):
+                b0 = b = max(1, max(sizes) // rng.randint(1, 40))
+        yield "regrid", {"sizes": sizes, "b0": b0, "b": b}
     maxlen = 8 if thorough else 6
     for n in (1, 2):
         for bins in all_segmentations(maxlen, n):
@@ -257,9 +451,19 @@ def cases(tier, rng):
         yield "chromsizes", {"bins": bins}
         if k % (10 if thorough else 30) == 0:
             yield "cooler_binsize", {"bins": bins}
-    for _ in range(40 if thorough else 8):
+    for k in range(800 if thorough else 80):
+        bins = near_limit_table(rng)
+        yield "binsize_truthful", {"bins": bins}
+        yield "binsize_unit", {"bins": bins}
+        yield "chromsizes", {"bins": bins}
+    for k in range(40 if thorough else 6):
+        yield "cooler_binsize", {"bins": near_limit_table(rng, cap=2 ** 31 - 1)}
+    for k in range(40 if thorough else 8):
         n = rng.randint(1, 3)
         yield "makebins_cli", {"sizes": [rng.randint(1, 40) for _ in range(n)], "b": rng.randint(1, 15)}
+    for k in range(40 if thorough else 8):
+        sizes, b = near_limit_sizes(rng)
+        yield "makebins_cli", {"sizes": sizes, "b": b}
 
 
 def shrink(name, case):
@@ -281,10 +485,10 @@ def shrink(name, case):
         s, b = case["sizes"], case["b"]
         for i in range(len(s)):
             if len(s) > 1:
-                yield {"sizes": s[:i] + s[i + 1:], "b": b}
+                yield dict(case, sizes=s[:i] + s[i + 1:])
         for i in range(len(s)):
             if s[i] > 1:
-                yield {"sizes": s[:i] + [s[i] // 2] + s[i + 1:], "b": b}
+                yield dict(case, sizes=s[:i] + [s[i] // 2] + s[i + 1:])
 
 
 def escalate(name, case, rng):
